@@ -196,6 +196,9 @@ func verifHarness_C04_onion() {
 		chain = verifCat(globals, nfIDs)
 	case t == 7:
 		method = "POST" // /r0 exists for GET only: method not allowed
+		if verifChoice("notAllowedBy", 2) == 1 {
+			method = "OPTIONS" // answered 200 + Allow by the default handler; still a fallback inside the global middleware
+		}
 		chain = verifCat(globals, naIDs)
 	default:
 		chain = verifCat(globals, exp[targets[t]])
@@ -237,6 +240,8 @@ func verifHarness_C04_onion() {
 		verifAssert(verifSameInts(p.tr.ev, want), "global middleware runs around the default fallback handler")
 		if t == 6 {
 			verifAssert(rec.whStatus == 404, "default not-found answer")
+		} else if method == "OPTIONS" {
+			verifAssert(rec.whStatus == 200 && rec.hdr.Get("Allow") == "GET", "default answer to OPTIONS: 200 with the Allow header")
 		} else {
 			verifAssert(rec.whStatus == 405, "default method-not-allowed answer")
 		}
